@@ -234,8 +234,34 @@ def b_iter(interp, s):
     return interp.iterate_concrete(s)
 
 
+def _sym_quantifier(interp, it, existential):
+    """any()/all() over a symbolic-length sequence whose elements are side-effect-free conditions: a sound case split.
+    any: result r with   r  => 0 <= w < n and cond(w)   for a fresh witness w;        (not r  => nothing: the universal half is dropped)
+    all: result r with  !r  => 0 <= w < n and !cond(w)  for a fresh witness w;        (     r  => cond(j) at the goal's skolem indices only)
+    Dropping a universal half weakens the hypotheses (sound, possibly incomplete)."""
+    from .interp import SSeq
+
+    ctx = interp.ctx
+    n = to_z3(it.length)
+    r = ctx.fresh("any" if existential else "all", "bool")
+    w = ctx.fresh("witness", "int")
+    c = it.get(w)
+    cz = c if (z3.is_expr(c) and z3.is_bool(c)) else (c != 0 if z3.is_expr(c) else z3.BoolVal(bool(interp.truth(c))))
+    if existential:
+        ctx.assume(z3.Implies(r, z3.And(w >= 0, w < n, cz)))
+        ctx.assume(z3.Implies(n <= 0, z3.Not(r)))
+    else:
+        ctx.assume(z3.Implies(z3.Not(r), z3.And(w >= 0, w < n, z3.Not(cz))))
+        ctx.assume(z3.Implies(n <= 0, r))
+    return r
+
+
 @wants_interp
 def b_any(interp, it):
+    from .interp import SSeq as _SSeq
+
+    if isinstance(it, _SSeq) and z3.is_expr(it.length) and not z3.is_int_value(z3.simplify(it.length)):
+        return _sym_quantifier(interp, it, True)
     parts = []
     for x in interp.iterate_concrete(it):
         if z3.is_expr(x):
@@ -249,6 +275,10 @@ def b_any(interp, it):
 
 @wants_interp
 def b_all(interp, it):
+    from .interp import SSeq as _SSeq
+
+    if isinstance(it, _SSeq) and z3.is_expr(it.length) and not z3.is_int_value(z3.simplify(it.length)):
+        return _sym_quantifier(interp, it, False)
     parts = []
     for x in interp.iterate_concrete(it):
         if z3.is_expr(x):
